@@ -16,6 +16,15 @@ type Val struct {
 	Addr  *Addr    // symbolic address (result of FieldAddr/IndexAddr/Alloc of a non-struct cell)
 	Tuple []Val    // multi-value
 	Clo   *Closure // statically known function value
+	Guard *GuardTag // lock discipline: the map value was loaded from a guarded location
+}
+
+// GuardTag: provenance of a map value loaded from a guarded field / global.
+type GuardTag struct {
+	Lock string // SMT term of the lock that must be held while the map is used ("" for frozen)
+	Obj  string // owner object ("" for globals)
+	What string // location name for the obligation
+	Decl *GuardDecl
 }
 
 // Addr is a symbolic memory location.
